@@ -4,7 +4,7 @@
    also what is extracted and run against the real C++. *)
 From Coq Require Import ZArith List Bool.
 From MomoCommon Require Import GenPrelude.
-From C17 Require Gen_Leaves Leaves_Proofs SorterSearch SorterSort Search_Proofs Find_Proofs IsSorted_Proofs Sort_Proofs Radix_Proofs CodeGetter Checker Instance SelPrims Gen_SelSort SelSort_Proofs SelSort_Refine.
+From C17 Require Gen_Leaves Leaves_Proofs SorterSearch SorterSort Search_Proofs Find_Proofs IsSorted_Proofs Sort_Proofs Radix_Proofs CodeGetter Checker Instance SelPrims Gen_SelSort SelSort_Proofs SelSort_Refine Gen_Radix Radix_Gen_Proofs Gen_RadixCount Radix_Count_Refine.
 Import ListNotations.
 Local Open Scope Z_scope.
 
@@ -217,3 +217,57 @@ Theorem C17_generated_selection_loop_refines_model : forall sw, (forall l i j, s
       SelSort_Refine.same_codes p cnt l' items' /\ SorterSort.alen l' = SorterSort.alen l.
 Proof. exact SelSort_Refine.sel_loops_agree. Qed.
 Print Assumptions C17_generated_selection_loop_refines_model.
+
+(* ---- GENERATED small RadixSorter functions (Gen_Radix.v, regenerated from RadixSorter.h on every run) ---- *)
+
+(* the generated integral code getter (int8/16/32/64) is the hand model code_of_signed, i.e. x + 2^(W-1) (c1e16df) ... *)
+Theorem C17_gen_code_getter_refines_model : forall W v, W = 8 \/ W = 16 \/ W = 32 \/ W = 64 -> - 2 ^ (W - 1) <= v < 2 ^ (W - 1) ->
+  Radix_Gen_Proofs.gen_code_signed W v = CodeGetter.code_of_signed W v /\ Radix_Gen_Proofs.gen_code_signed W v = v + 2 ^ (W - 1).
+Proof. exact Radix_Gen_Proofs.gen_code_signed_refines. Qed.
+Print Assumptions C17_gen_code_getter_refines_model.
+
+(* ... hence an order isomorphism onto [0,2^W): C17_signed_code_order_iso restated about the GENERATED function *)
+Theorem C17_gen_signed_code_order_iso : forall W x y, W = 8 \/ W = 16 \/ W = 32 \/ W = 64 ->
+  - 2 ^ (W - 1) <= x < 2 ^ (W - 1) -> - 2 ^ (W - 1) <= y < 2 ^ (W - 1) ->
+  (x <= y <-> Radix_Gen_Proofs.gen_code_signed W x <= Radix_Gen_Proofs.gen_code_signed W y) /\
+  0 <= Radix_Gen_Proofs.gen_code_signed W x < 2 ^ W.
+Proof. exact Radix_Gen_Proofs.gen_signed_code_order_iso. Qed.
+Print Assumptions C17_gen_signed_code_order_iso.
+
+Theorem C17_gen_unsigned_code_identity : forall W v, W = 8 \/ W = 16 \/ W = 32 \/ W = 64 -> 0 <= v < 2 ^ W ->
+  Radix_Gen_Proofs.gen_code_unsigned W v = v.
+Proof. exact Radix_Gen_Proofs.gen_code_unsigned_id. Qed.
+Print Assumptions C17_gen_unsigned_code_identity.
+
+(* generated pvGetRadix (64-bit and 8-bit code instantiations, radixSize symbolic) = the hand model's getRadix *)
+Theorem C17_gen_pvGetRadix_refines_model : forall R code shift, 0 <= R < 64 -> 0 <= code < 2 ^ 64 -> 0 <= shift ->
+  Gen_Radix.pvGetRadix_u64 R code shift = SorterSort.getRadix R code shift /\
+  Gen_Radix.pvGetRadix_u8 R code shift = SorterSort.getRadix R code shift.
+Proof. exact Radix_Gen_Proofs.gen_pvGetRadix_refines. Qed.
+Print Assumptions C17_gen_pvGetRadix_refines_model.
+
+(* the first shift computed by the generated Sort() (bb23c06) is max(W - R, 0) for every radix size: it never wraps, it is 0
+   when the radix is at least as wide as the code, and it is the shift the proved model SorterSort.RadixSort starts with *)
+Theorem C17_gen_first_shift_refines_model : forall R fs b c, 0 <= R ->
+  Gen_Radix.Sort_first_shift_u64 R fs b c = Radix_Gen_Proofs.model_first_shift R 64 /\
+  Gen_Radix.Sort_first_shift_u8 R fs b c = Radix_Gen_Proofs.model_first_shift R 8 /\
+  (8 <= R -> Gen_Radix.Sort_first_shift_u8 R fs b c = 0).
+Proof. exact Radix_Gen_Proofs.gen_first_shift_refines. Qed.
+Print Assumptions C17_gen_first_shift_refines_model.
+
+(* the GENERATED counting pass + prefix-sum loop of RadixSorter<8>::pvRadixSort (Gen_RadixCount.v; radixSize/radixCount
+   symbolic, so for every R <= 16 with radixCount = 2^R) refines the hand model: same singleCode / singleRadix flags, the same
+   bucket table as cnt_loop + psum_loop, and endIndexes[r] = number of items whose digit is <= r (prefix sums of the digit
+   histogram = bucket ends).  No size_t addition in it wraps for count < 2^62. *)
+Theorem C17_gen_counting_pass_refines_model : forall R, 0 <= R <= 16 -> forall l p cnt shift begin, 0 < cnt < 2 ^ 62 -> 0 <= shift ->
+  forall items, (forall k, 0 <= k < cnt -> items k = SorterSort.code l (p + k)) ->
+  forall fuel e0 b1 b2, (Z.to_nat (cnt + 2 ^ R) < fuel)%nat ->
+    match SorterSort.cnt_loop R (Z.to_nat (cnt - 1)) l p shift 1 (SorterSort.code l p) (SorterSort.getRadix R (SorterSort.code l p) shift)
+            (upd (fun _ => 0) (SorterSort.getRadix R (SorterSort.code l p) shift) 1) true true with
+    | (eh, sch, srh) =>
+      exists E, Gen_RadixCount.pvRadixSort_count R (2 ^ R) fuel e0 items b1 b2 begin cnt shift = Ok (tt, E, sch, srh) /\
+        (forall r, E r = SorterSort.psum_loop (Z.to_nat (2 ^ R - 1)) 1 eh r) /\
+        (forall r, 0 <= r < 2 ^ R -> E r = Radix_Proofs.psum (fun r' => Radix_Proofs.cz (fun k => Radix_Proofs.Dg R p shift l k =? r') 0 cnt) (Z.to_nat (r + 1)))
+    end.
+Proof. exact Radix_Count_Refine.gen_count_refines. Qed.
+Print Assumptions C17_gen_counting_pass_refines_model.
